@@ -70,6 +70,7 @@ type simStep struct {
 
 func (c *simCluster) doStep(s simStep) (ev map[string]interface{}) {
 	c.evExtra = nil
+	c.acts = []map[string]interface{}{}
 	// RoundFast: the outcome of `round.Duration() > promoteThreshold` in this step
 	thr := time.Hour
 	if s.Rf != nil && !*s.Rf {
@@ -625,6 +626,7 @@ type pRepl struct {
 	Round     uint64 `json:"round"`
 	RoundLast uint64 `json:"roundLast"`
 	RoundDone bool   `json:"roundDone"`
+	RoundStale bool  `json:"roundStale"`
 	RemoveLTE uint64 `json:"removeLTE"`
 	LuCh      int    `json:"luCh"`
 }
@@ -792,6 +794,7 @@ func (c *simCluster) project(n *simNode) pNodeState {
 			}
 			if rd := repl.status.round; rd != nil {
 				pr.Round, pr.RoundLast, pr.RoundDone = rd.Ordinal, rd.LastIndex, rd.finished()
+				pr.RoundStale = rd.finished() && rd.End.Before(rd.Start)
 			}
 			for _, sr := range c.repls {
 				if sr.r == repl {
@@ -880,6 +883,12 @@ func (c *simCluster) record(stim interface{}, ev map[string]interface{}) {
 	done := c.newlyDone()
 	if done == nil {
 		done = []interface{}{}
+	}
+	if ev != nil {
+		if c.acts == nil {
+			c.acts = []map[string]interface{}{}
+		}
+		ev["acts"] = c.acts
 	}
 	rec := map[string]interface{}{"sched": c.name, "seq": c.seq, "stim": stim, "ev": ev, "notes": extra, "done": done, "nodes": nodes, "net": c.projectNet()}
 	if err := c.rec.Encode(rec); err != nil {
